@@ -43,6 +43,26 @@ pub fn options(preset: Preset, sorted: bool) -> Options {
     o
 }
 
+/// every other way a caller can arrive at the options `options(preset, sorted)`: the sort option set
+/// before the `derive()` builder is applied, and all four fields written out
+pub fn option_spellings(preset: Preset, sorted: bool) -> Vec<(&'static str, Options)> {
+    let base = options(preset, sorted);
+    let mut first_sort = match preset {
+        Preset::QuickXml => Options::quick_xml_de(),
+        Preset::SerdeXmlRs => Options::serde_xml_rs(),
+    };
+    first_sort.sort = if sorted { SortBy::XmlName } else { SortBy::Unsorted };
+    let derive = first_sort.derive.clone();
+    let via_builder = first_sort.derive(&derive);
+    let literal = Options {
+        text_identifier: base.text_identifier.clone(),
+        attribute_prefix: base.attribute_prefix.clone(),
+        derive: base.derive.clone(),
+        sort: if sorted { SortBy::XmlName } else { SortBy::Unsorted },
+    };
+    vec![("sort set before the derive() builder", via_builder), ("all fields written out", literal)]
+}
+
 /// render under a preset. Called outside `guarded`, a panicking renderer yields the text
 /// `PANIC(render): ...` (which no oracle accepts as output) instead of taking the check down
 pub fn render(e: &Element<String>, preset: Preset, sorted: bool) -> String {
@@ -263,6 +283,49 @@ pub fn repeat_history_opt(docs: &[String], in_thread: usize, fresh_threads: usiz
                         push(format!("[a copy of the value after {} of {} documents, kept while the value was extended, renders differently from a fresh run over these documents]\n{}", k + 1, docs.len(), o));
                     }
                 }
+            }
+        }
+    }
+    if in_thread > 0 && docs.len() >= 2 {
+        // the history split over threads: every document is parsed / extended on a thread of its own
+        // (one that did unrelated work first, then one that did not), the value handed from one to the next
+        for warm_first in [true, false] {
+            let mut cur: Option<Element<String>> = None;
+            let mut failed: Option<String> = None;
+            for (k, d) in docs.iter().enumerate() {
+                let d = d.clone();
+                let prev = cur.take();
+                let warm = warm_first == (k % 2 == 0);
+                let r = std::thread::spawn(move || {
+                    if warm {
+                        noise();
+                    }
+                    guarded(|| match prev {
+                        None => parse(d.as_bytes()),
+                        Some(e) => extend(e, d.as_bytes()),
+                    })
+                })
+                .join();
+                match r {
+                    Ok(Ok(Ok(e))) => cur = Some(e),
+                    Ok(Ok(Err(e))) => {
+                        failed = Some(format!("ERR: {}", e));
+                        break;
+                    }
+                    Ok(Err(p)) => {
+                        failed = Some(format!("PANIC(parse): {}", p));
+                        break;
+                    }
+                    Err(_) => {
+                        failed = Some("PANIC(thread)".to_string());
+                        break;
+                    }
+                }
+            }
+            match (failed, cur) {
+                (Some(f), _) => push(f),
+                (None, Some(e)) => push(observe_element(&e)),
+                _ => {}
             }
         }
     }
